@@ -123,7 +123,9 @@ func newCtlFixture(kind string) *ctlFixture {
 		srv := ctlsrv.New(&ctlServerKey.PrivateKey, [][]byte{ctlAdminKey.PublicKey().Bytes()}, ctlHealth{rec}, zap.NewNop())
 		srv.MarkReady(e, (*placement.Service)(nil), (*replicator.Replicator)(nil), ctlNodeState{rec})
 		return &ctlFixture{srv: srv, rec: rec, eng: e, dir: dir,
-			sign:   func(k *keys.PrivateKey, m any) error { return ctlsrv.SignMessage(&k.PrivateKey, m.(ctlsrv.SignedMessage)) },
+			sign: func(k *keys.PrivateKey, m any) error {
+				return ctlsrv.SignMessage(&k.PrivateKey, m.(ctlsrv.SignedMessage))
+			},
 			ifaceT: reflect.TypeOf((*control.ControlServiceServer)(nil)).Elem(),
 			cleanup: func() {
 				e.Close()
@@ -136,7 +138,9 @@ func newCtlFixture(kind string) *ctlFixture {
 		prm.SetNetworkManager(irNotary{rec})
 		srv := irsrv.New(prm, irsrv.WithAllowedKeys([][]byte{ctlAdminKey.PublicKey().Bytes()}))
 		return &ctlFixture{srv: srv, rec: rec,
-			sign:    func(k *keys.PrivateKey, m any) error { return irsrv.SignMessage(&k.PrivateKey, m.(irsrv.SignedMessage)) },
+			sign: func(k *keys.PrivateKey, m any) error {
+				return irsrv.SignMessage(&k.PrivateKey, m.(irsrv.SignedMessage))
+			},
 			ifaceT:  reflect.TypeOf((*irctl.ControlServiceServer)(nil)).Elem(),
 			cleanup: func() {}}
 	}
